@@ -68,7 +68,8 @@ func main() {
 	out := flag.String("out", "", "result json (default stdout)")
 	maxSteps := flag.Int("maxsteps", 2000000, "instruction bound per path (unwinding bound)")
 	maxPaths := flag.Int("maxpaths", 200000, "path bound per harness")
-	jobs := flag.Int("j", 8, "harnesses explored in parallel")
+	jobs := flag.Int("j", 4, "harnesses explored in parallel")
+	workers := flag.Int("w", 4, "path-exploration workers per harness")
 	samples := flag.Int("samples", 3, "sample models per harness")
 	smtlog := flag.String("smtlog", "", "directory for SMT transcripts")
 	flag.Parse()
@@ -124,7 +125,7 @@ func main() {
 				mode = "int"
 				n = strings.TrimSuffix(n, ":int")
 			}
-			results[i] = runHarness(prog, pkg, n, mode, *solver, *timeout, known, *maxSteps, *maxPaths, *samples, *smtlog)
+			results[i] = runHarness(prog, pkg, n, mode, *solver, *timeout, known, *maxSteps, *maxPaths, *samples, *smtlog, *workers)
 		}(i, strings.TrimSpace(n))
 	}
 	wg.Wait()
@@ -177,7 +178,53 @@ func load(repo, hdir string) (*ssa.Program, *ssa.Package, error) {
 	return prog, spkgs[0], nil
 }
 
-func runHarness(prog *ssa.Program, pkg *ssa.Package, name, mode, solverName string, timeout int, known []KnownFinding, maxSteps, maxPaths, samples int, smtlog string) (hr HarnessResult) {
+type explorer struct {
+	mu     sync.Mutex
+	cond   *sync.Cond
+	work   [][]bool
+	active int
+	npaths int
+	err    string
+}
+
+func (x *explorer) push(p []bool) {
+	x.mu.Lock()
+	x.work = append(x.work, p)
+	x.mu.Unlock()
+	x.cond.Signal()
+}
+
+// pop blocks until work is available or every worker is idle (then returns nil,false)
+func (x *explorer) pop() ([]bool, bool) {
+	x.mu.Lock()
+	defer x.mu.Unlock()
+	for {
+		if x.err != "" {
+			return nil, false
+		}
+		if n := len(x.work); n > 0 {
+			p := x.work[n-1]
+			x.work = x.work[:n-1]
+			x.active++
+			x.npaths++
+			return p, true
+		}
+		if x.active == 0 {
+			x.cond.Broadcast()
+			return nil, false
+		}
+		x.cond.Wait()
+	}
+}
+
+func (x *explorer) done() {
+	x.mu.Lock()
+	x.active--
+	x.mu.Unlock()
+	x.cond.Broadcast()
+}
+
+func runHarness(prog *ssa.Program, pkg *ssa.Package, name, mode, solverName string, timeout int, known []KnownFinding, maxSteps, maxPaths, samples int, smtlog string, workers int) (hr HarnessResult) {
 	hr.Name, hr.Mode = name, mode
 	start := time.Now()
 	fn := pkg.Func(name)
@@ -185,53 +232,117 @@ func runHarness(prog *ssa.Program, pkg *ssa.Package, name, mode, solverName stri
 		hr.Error = "harness function not found: " + name
 		return
 	}
-	tb := NewTermBuilder()
-	e := &Engine{prog: prog, pkg: pkg, pkgPath: pkg.Pkg.Path(), tb: tb, mode: mode, harness: name,
-		asserts: map[string]*AssertRec{}, reachAll: map[string]int{}, fnTouched: map[*ssa.Function]map[int]bool{},
-		endCounts: map[string]int{}, maxSteps: maxSteps, maxPaths: maxPaths, samples: samples, known: known,
-		stubsUsed: map[string]int{}, skippedGo: map[string]int{}}
-	e.solver = NewSolver(tb, solverName, timeout)
-	if smtlog != "" {
-		os.MkdirAll(smtlog, 0o755)
-		f, err := os.Create(filepath.Join(smtlog, name+".smt2"))
-		if err == nil {
-			e.solver.Log = f
-			defer f.Close()
+	x := &explorer{work: [][]bool{nil}}
+	x.cond = sync.NewCond(&x.mu)
+	engines := make([]*Engine, workers)
+	var wg sync.WaitGroup
+	for w := 0; w < workers; w++ {
+		tb := NewTermBuilder()
+		e := &Engine{prog: prog, pkg: pkg, pkgPath: pkg.Pkg.Path(), tb: tb, mode: mode, harness: name,
+			asserts: map[string]*AssertRec{}, reachAll: map[string]int{}, fnTouched: map[*ssa.Function]map[int]bool{},
+			endCounts: map[string]int{}, maxSteps: maxSteps, maxPaths: maxPaths, samples: samples, known: known,
+			stubsUsed: map[string]int{}, skippedGo: map[string]int{}, x: x}
+		e.solver = NewSolver(tb, solverName, timeout)
+		if smtlog != "" && w == 0 {
+			os.MkdirAll(smtlog, 0o755)
+			f, err := os.Create(filepath.Join(smtlog, name+".smt2"))
+			if err == nil {
+				e.solver.Log = f
+				defer f.Close()
+			}
 		}
-	}
-	defer e.solver.Close()
-	defer func() {
-		if r := recover(); r != nil {
-			if ee, ok := r.(engineError); ok {
-				hr.Error = ee.msg
-			} else {
-				hr.Error = fmt.Sprintf("internal error: %v", r)
-				if os.Getenv("SYMGO_TRACE") != "" {
-					panic(r)
+		engines[w] = e
+		wg.Add(1)
+		go func(e *Engine) {
+			defer wg.Done()
+			defer e.solver.Close()
+			defer func() {
+				if r := recover(); r != nil {
+					msg := ""
+					if ee, ok := r.(engineError); ok {
+						msg = ee.msg
+					} else {
+						msg = fmt.Sprintf("internal error: %v", r)
+						if os.Getenv("SYMGO_TRACE") != "" {
+							panic(r)
+						}
+					}
+					x.mu.Lock()
+					if x.err == "" {
+						x.err = msg
+					}
+					x.mu.Unlock()
+					x.cond.Broadcast()
+				}
+			}()
+			for {
+				p, ok := x.pop()
+				if !ok {
+					return
+				}
+				if maxPaths > 0 && x.npaths > maxPaths {
+					x.done()
+					panic(engineErr("path bound %d exceeded in harness %s", maxPaths, name))
+				}
+				func() {
+					defer x.done()
+					e.runPath(fn, p)
+				}()
+				if os.Getenv("SYMGO_PROGRESS") != "" && x.npaths%200 == 0 {
+					fmt.Fprintf(os.Stderr, "[%s] paths=%d queue=%d %.0fs\n", name, x.npaths, len(x.work), time.Since(start).Seconds())
 				}
 			}
+		}(e)
+	}
+	wg.Wait()
+	hr.Error = x.err
+	hr.Labels = collectLabels(pkg, fn)
+	hr.Ends = map[string]int{}
+	hr.Asserts = map[string]*AssertRec{}
+	hr.Reach = map[string]int{}
+	hr.Stubs = map[string]int{}
+	hr.SkippedGo = map[string]int{}
+	cov := map[string]*FnCov{}
+	covBlocks := map[string]map[int]bool{}
+	for _, e := range engines {
+		hr.Paths += len(e.paths)
+		for k, v := range e.endCounts {
+			hr.Ends[k] += v
 		}
-		hr.Paths = len(e.paths)
-		hr.Ends = e.endCounts
-		hr.Asserts = e.asserts
-		hr.Reach = e.reachAll
-		hr.Violations = e.violations
-		hr.Queries, hr.Sat, hr.Unsat, hr.Unknown, hr.SolverS = e.solver.Queries, e.solver.Sat, e.solver.Unsat, e.solver.Unknown, e.solver.Seconds
-		hr.WallS = time.Since(start).Seconds()
-		hr.Stubs = e.stubsUsed
-		hr.Inexact = e.solver.Unknown > 0
-		hr.RangePaths = e.overflowPaths
-		hr.SkippedGo = e.skippedGo
+		for k, a := range e.asserts {
+			r := hr.Asserts[k]
+			if r == nil {
+				r = &AssertRec{Label: k}
+				hr.Asserts[k] = r
+			}
+			r.OK += a.OK
+			r.Violated += a.Violated
+			r.Unknown += a.Unknown
+		}
+		for k, v := range e.reachAll {
+			hr.Reach[k] += v
+		}
+		hr.Violations = append(hr.Violations, e.violations...)
+		hr.Queries += e.solver.Queries
+		hr.Sat += e.solver.Sat
+		hr.Unsat += e.solver.Unsat
+		hr.Unknown += e.solver.Unknown
+		hr.SolverS += e.solver.Seconds
+		for k, v := range e.stubsUsed {
+			hr.Stubs[k] += v
+		}
+		for k, v := range e.skippedGo {
+			hr.SkippedGo[k] += v
+		}
+		hr.RangePaths += e.overflowPaths
 		for _, p := range e.paths {
 			hr.Steps += p.Steps
-			if p.Sample != nil {
+			if p.Sample != nil && len(hr.Samples) < samples {
 				hr.Samples = append(hr.Samples, p.Sample)
 			}
-			if len(hr.Notes) < 12 {
-				for _, n := range p.Notes {
-					if len(hr.Notes) < 12 {
-						hr.Notes = append(hr.Notes, n)
-					}
+			for _, n := range p.Notes {
+				if len(hr.Notes) < 12 {
+					hr.Notes = append(hr.Notes, n)
 				}
 			}
 		}
@@ -248,12 +359,23 @@ func runHarness(prog *ssa.Program, pkg *ssa.Package, name, mode, solverName stri
 			if strings.Contains(n, ".verif") {
 				continue
 			}
-			hr.Functions = append(hr.Functions, FnCov{Name: n, Blocks: len(f.Blocks), Touched: len(blocks)})
+			if cov[n] == nil {
+				cov[n] = &FnCov{Name: n, Blocks: len(f.Blocks)}
+				covBlocks[n] = map[int]bool{}
+			}
+			for b := range blocks {
+				covBlocks[n][b] = true
+			}
 		}
-		sort.Slice(hr.Functions, func(i, j int) bool { return hr.Functions[i].Name < hr.Functions[j].Name })
-	}()
-	hr.Labels = collectLabels(pkg, fn)
-	e.explore(fn)
+	}
+	for n, c := range cov {
+		c.Touched = len(covBlocks[n])
+		hr.Functions = append(hr.Functions, *c)
+	}
+	sort.Slice(hr.Functions, func(i, j int) bool { return hr.Functions[i].Name < hr.Functions[j].Name })
+	sort.Slice(hr.Violations, func(i, j int) bool { return hr.Violations[i].Path < hr.Violations[j].Path })
+	hr.Inexact = hr.Unknown > 0
+	hr.WallS = time.Since(start).Seconds()
 	return
 }
 
